@@ -1,15 +1,18 @@
 #!/bin/sh
 # Developer aid: run checks against /repo + a patch, in a scratch copy (removed afterwards).
-# usage: ./seedcheck.sh <patch.diff> [property ...]   (default: all properties)
+# usage: ./seedcheck.sh <patch.diff> [property ...]   (default: all properties, program loaded once)
 cd "$(dirname "$0")" || exit 2
-P="$1"; shift
+P=$(readlink -f "$1"); shift
 D=$(mktemp -d /tmp/seedchk.XXXXXX)
 rsync -a --exclude .git /repo/ "$D"/ || exit 2
 (cd "$D" && patch -p1 -s < "$P") || { echo "patch does not apply"; rm -rf "$D"; exit 2; }
-PROPS="$*"; [ -z "$PROPS" ] && PROPS=$(./bin/iocvet list)
 export GOFLAGS=-mod=mod GOPROXY=off GOSUMDB=off GOWORK=off GOTOOLCHAIN=local IOCVET_NO_SELFTEST=1
-for p in $PROPS; do
-  out=$(./bin/iocvet -repo "$D" -verif "$PWD" -no-evidence "$p" 2>&1); rc=$?
-  if [ $rc -ne 0 ]; then echo "== $p exit=$rc"; echo "$out" | grep -E '^(VIOLATED|UNDECIDED)' | sed "s#$D/##g" | cut -c1-400; fi
-done
+if [ -z "$*" ]; then
+  ./bin/iocvet -repo "$D" -verif "$PWD" all 2>&1 | sed "s#$D/##g" | cut -c1-400
+else
+  for p in "$@"; do
+    out=$(./bin/iocvet -repo "$D" -verif "$PWD" -no-evidence "$p" 2>&1); rc=$?
+    if [ $rc -ne 0 ]; then echo "== $p exit=$rc"; echo "$out" | grep -E '^(VIOLATED|UNDECIDED)' | sed "s#$D/##g" | cut -c1-400; fi
+  done
+fi
 rm -rf "$D"
